@@ -179,6 +179,12 @@ def run(C, R):
                     elif v[0] == 'init' and loc_endswith(v[1], 'value') and '<locked>' in v[1]:
                         role = 'old-self-value'
                     allowed = [a for a in ALLOWED_DROPS if a[0] == e['fn'] and a[1] == role]
+                    if not allowed and role == 'old-self-value' and e['fn'].lstrip('<').startswith('channel::oneshot'):
+                        # the oneshot slot is empty while is_fulfilled == false (C12.R1 / R6): the old value dropped by an
+                        # assignment on such a path is None, whichever helper holds the store
+                        floc = v[1][:-1] + ('is_fulfilled',)
+                        if const_of(E, path.facts, ('init', floc)) == 0:
+                            allowed = [(e['fn'], role, 'the slot is empty while is_fulfilled == false (C12.R1): dropping None')]
                     if not allowed:
                         sp_of = layer.get(e['fn'])
                         if sp_of is None and role == 'ret-of-pop' and (F.fn(e['fn']) or {}).get('impl_adt', '').endswith(
